@@ -421,7 +421,7 @@ pub fn main(args: &Args) -> Report {
         rep.out = out;
         return rep;
     }
-    let n = if args.thorough() { 8000 } else { 800 };
+    let n = if args.thorough() { 20_000 } else { 800 };
     let deadline = Instant::now() + Duration::from_secs(args.budget_s(120, 1200));
     let seed = args.seed;
     let (mut out, _) = par_cases(n, threads(), Some(deadline), |k| {
